@@ -3323,7 +3323,7 @@ func (b *Bundle) computeDataForSourceMapsInParallel(options *config.Options, rea
 							// Missing contents become a "null" literal
 							quotedContents := nullContents
 							if i < len(sm.SourcesContent) {
-								if value := sm.SourcesContent[i]; value.Quoted != "" && (!options.ASCIIOnly || !isASCIIOnly(value.Quoted)) {
+								if value := sm.SourcesContent[i]; value.Quoted != "" && (!options.ASCIIOnly || isASCIIOnly(value.Quoted)) {
 									// Just use the value directly from the input file
 									quotedContents = []byte(value.Quoted)
 								} else if value.Value != nil {
